@@ -855,6 +855,28 @@ func (fr *frame) checkPost(ret *ssa.Return, vals []Val, st *State, reach string)
 	if fr.c.HasMod {
 		fr.checkFrame(st, reach)
 	}
+	// lock balance: the function returns with exactly the locks it was entered with (locks of objects it allocated
+	// itself are released). A lock leaked on some path blocks every later user of the mutex for ever.
+	var gs []string
+	seenLock := map[string]bool{}
+	for _, p := range ex.lockSites {
+		// quantifier-free: only the mutexes this unit itself locks or unlocks can differ (callees are balanced)
+		key := fmt.Sprint(p.L, ptrInfoOf(p).Kind, typeKey(ptrInfoOf(p).Root), ptrInfoOf(p).Path)
+		if seenLock[key] {
+			continue
+		}
+		seenLock[key] = true
+		fin := ex.load(st, p).L[0]
+		ini := ex.load(fr.entry, p).L[0]
+		gs = append(gs, ite(app("<=", p.L[0], "top!0"), eq(fin, ini), not(fin)))
+	}
+	if len(gs) > 0 {
+		props := append([]string{}, ex.unit.SafetyProps...)
+		if !hasProp(props, "C14") {
+			props = append(props, "C14")
+		}
+		ex.oblige("lock.balance", "ensures", props, imp(reach, and(gs...)), fr.c.Pos, "the function returns with exactly the locks it was entered with")
+	}
 }
 
 // checkFrame proves that nothing outside the modifies clause changed.
